@@ -379,3 +379,13 @@ func (p HdrProfile) GetClaims() psatoken.IClaims {
 	}
 	return c
 }
+
+// WrapClaims embeds the claims INTERFACE (not a concrete claims type) and adds one claim: the same Go type carries
+// profile-1 claims in one value and profile-2 claims in the next.
+type WrapClaims struct {
+	psatoken.IClaims
+	Stamp *int64 `cbor:"-75100,keyasint,omitempty" json:"stamp,omitempty"`
+}
+
+func (o WrapClaims) MarshalCBOR() ([]byte, error) { return encoding.SerializeStructToCBOR(extEM, &o) }
+func (o WrapClaims) MarshalJSON() ([]byte, error) { return encoding.SerializeStructToJSON(&o) }
